@@ -40,13 +40,18 @@ contracts = {
  "JobArrayer.submit_pending_jobs": dict(where=f"{J}:JobArrayer.submit_pending_jobs", params={"self": REF, "descr": D},
     requires=[NP, KEYS, TS, SIZES, "descr in self.pending"], ensures=[NP, KEYS, TS, FRAME,
         # conservation: what was handed off followed by what stays pending is exactly what was pending (same order, nothing lost or duplicated)
-        "handed + (self.pending[descr] if descr in self.pending else smt('(as seq.empty (Seq Ref))', sort=Seq(Ref))) == old(self.pending[descr])",
-        "forall(d, Descr, implies(d != descr, self.pending.get(d) == old(self.pending.get(d))))"],
+        "handed + (self.pending[descr] if descr in self.pending else smt('(as seq.empty (Seq Ref))', sort=Seq(Ref))) == old(self.pending[descr]) + others"
+        " or (self.pending[descr] if descr in self.pending else smt('(as seq.empty (Seq Ref))', sort=Seq(Ref))) == others + old(self.pending[descr])[len(handed):]"],
     no_raise=True, locals={"jobs": Seq(REF), "remainder": Seq(REF)},
-    ghost_local={"handed": Seq(REF)}, ghost_init=["len(handed) == 0"],
+    ghost_local={"handed": Seq(REF), "others": Seq(REF)}, ghost_init=["len(handed) == 0", "len(others) == 0"],
     at_call={"_submit_jobs": [BATCH, "forall(i, Int, implies(0 <= i and i < len(arg0), descr_of(arg0[i]) == descr))"]},
     on_call={"_submit_jobs": "handed = handed + arg0"},
     loops={0: ["handed == jobs[:index(0)]"]}),
+ "JobDescription.__init__": dict(where=f"{J}:JobDescription.__init__", params={"self": REF, "job": REF},
+    lib={"job.get_options()": lambda e, n, st, old: e.ctx.app("options_of", [REF], OBJ, [st.env["job"]]),
+         "str(sorted(self.options.items()))": lambda e, n, st, old: e.ctx.app("options_text", [OBJ], STR, [e.to_obj(e.ev(n.args[0].args[0].func.value, st, old))])},
+    ensures=["self.task_name == job.task.fullname", "self.options == options_of(job)",
+             "self.key == job.task.fullname + ' ' + options_text(options_of(job))"]),
  "JobDescription.__eq__": dict(where=f"{J}:JobDescription.__eq__", params={"self": REF, "other": OBJ}, returns=BOOL,
     ensures=["result == (isinst_JobDescription(other) and box_key(self.key) == other.key)" if False else "implies(result, isinst_JobDescription(other))"]),
 }
@@ -57,16 +62,53 @@ def snapshot(eng, n, st, old):
     return st.env["$pend0"]
 
 
+def lock_enter(eng, ctx_expr, st, with_node):
+    """`with self._lock:` -- between two critical sections of one method other threads may have run add_job (which appends
+    jobs to pending lists under the lock and bumps the counter) ; the first acquisition sees the method's (arbitrary) pre-state"""
+    import ast as _ast
+    if _ast.unparse(ctx_expr) != "self._lock" or eng.cur != "JobArrayer.submit_pending_jobs":
+        return
+    eng.lock_n = getattr(eng, "lock_n", {})
+    k = (eng.cur, tuple(eng.decisions[: eng.dpos]))
+    first = not st.env.get("$locked_once")
+    st.env["$locked_once"] = T(BOOL, "true")
+    if first:
+        return
+    self_ = st.env["self"]
+    descr = st.env["descr"]
+    oldp = f"(select {eng.field(st, 'pending').s} {self_.s})"
+    oldn = f"(select {eng.field(st, 'num_pending').s} {self_.s})"
+    oldt = f"(select {eng.field(st, 'pending_timestamps').s} {self_.s})"
+    newp = eng.opaque("pending_after_others", PEND)
+    added = eng.opaque("added_by_others", Seq(REF))
+    st.ghost["others"] = T(Seq(REF), f"(seq.++ {st.ghost['others'].s} {added.s})")
+    hp, hn, ht = eng.field(st, "pending"), eng.field(st, "num_pending"), eng.field(st, "pending_timestamps")
+    # rely: for the description being submitted others only appended jobs of that description; the counter and the invariants moved along
+    prev = f"(ite ((_ is Some_Seq_Ref) (select {oldp} {descr.s})) (val_Seq_Ref (select {oldp} {descr.s})) (as seq.empty (Seq Ref)))"
+    st.pc.append(f"(= (select {newp.s} {descr.s}) (ite (and (= (seq.len {added.s}) 0) (not ((_ is Some_Seq_Ref) (select {oldp} {descr.s})))) (select {oldp} {descr.s}) (Some_Seq_Ref (seq.++ {prev} {added.s}))))")
+    st.pc.append(f"(forall ((i Int)) (=> (and (>= i 0) (< i (seq.len {added.s}))) (= (|descr_of| (seq.nth {added.s} i)) {descr.s})))")
+    newn = eng.opaque("num_after_others", INT)
+    newt = eng.opaque("ts_after_others", Map(D, "Time"))
+    st.heap["pending"] = T(hp.sort, f"(store {hp.s} {self_.s} {newp.s})")
+    st.heap["num_pending"] = T(hn.sort, f"(store {hn.s} {self_.s} {newn.s})")
+    st.heap["pending_timestamps"] = T(ht.sort, f"(store {ht.s} {self_.s} {newt.s})")
+    # others preserve the representation invariants relative to the jobs this method still holds (its detached `jobs`)
+    st.pc.append(f"(= (- {newn.s} (|total| {newp.s})) (- {oldn} (|total| {oldp})))")
+    for inv in (KEYS, TS):
+        st.pc.append(eng.spec(inv, st, eng.entry).s)
+    eng.note("rely", "state havocked at lock re-acquisition under the add_job rely condition", with_node.lineno)
+
+
 MODULE = Module(
     prelude="(declare-sort Descr 0)\n(declare-sort Time 0)", axioms=AX,
-    fields={"pending": PEND, "pending_timestamps": Map(D, "Time"), "num_pending": INT, "min_array_size": INT, "max_array_size": INT},
+    fields={"task_name": STR, "options": OBJ, "key": STR, "pending": PEND, "pending_timestamps": Map(D, "Time"), "num_pending": INT, "min_array_size": INT, "max_array_size": INT},
     defaultdicts={"pending": "(as seq.empty (Seq Ref))"},
-    stable={"task": REF, "script": OBJ},
-    ufuns={"total": ([PEND], INT), "descr_of": ([REF], D), "truthy": ([OBJ], BOOL), "isinst_JobDescription": ([OBJ], BOOL)},
-    sortnames={"Descr": D, "Time": "Time"},
+    stable={"task": REF, "script": OBJ, "fullname": STR, "name": STR},
+    ufuns={"total": ([PEND], INT), "descr_of": ([REF], D), "truthy": ([OBJ], BOOL), "isinst_JobDescription": ([OBJ], BOOL), "options_of": ([REF], OBJ), "options_text": ([OBJ], STR)},
+    sortnames={"Descr": D, "Time": "Time"}, hooks={"with_enter": lock_enter},
     classes={"self": "JobArrayer"}, contracts=contracts,
 )
-VERIFY = ["JobArrayer.add_job", "JobArrayer.get_stale_descrs", "JobArrayer.submit_pending_jobs"]
+VERIFY = ["JobArrayer.add_job", "JobArrayer.get_stale_descrs", "JobArrayer.submit_pending_jobs", "JobDescription.__init__"]
 
 
 def bounded_streams(tier, seed):
